@@ -284,6 +284,9 @@ class Compound(Any, tuple, metaclass=abc.ABCMeta):
         """Abstract constructor."""
         raise NotImplementedError()
 
+    def __getnewargs__(self):
+        return tuple(self)
+
     def __eq__(self, other):
         return Any.__eq__(self, other) and tuple.__eq__(self, other)
 
@@ -341,6 +344,9 @@ class Struct(Compound):
 
     def __new__(cls, **element: 'dsl.Any'):
         return tuple.__new__(cls, [cls.Element(n, k) for n, k in element.items()])
+
+    def __getnewargs_ex__(self):
+        return (), {e.name: e.kind for e in self}
 
 
 def reflect(value: typing.Any) -> 'dsl.Any':
